@@ -43,6 +43,7 @@ RawLen == [a |-> 1, utf8 |-> 3, x |-> 2, xml |-> 4, uri |-> 5, tok |-> 1]
 TokSize(tk) == CASE tk.k \in {"u8", "i8"} -> 1 [] tk.k \in {"u16", "i16"} -> 2
                  [] tk.k \in {"u32", "i32", "f32"} -> 4 [] tk.k \in {"u64", "i64", "f64", "time"} -> 8
                  [] tk.k = "guid" -> 16 [] tk.k = "raw" -> RawLen[tk.a]
+                 [] tk.k = "dimvec3" -> 16 [] tk.k = "dimvec4" -> 20
 RECURSIVE Size(_)
 Size(s) == IF s = <<>> THEN 0 ELSE TokSize(Head(s)) + Size(Tail(s))
 RECURSIVE Cat(_)
@@ -514,7 +515,22 @@ HostileDims == {[ty |-> "Variant", what |-> "dimensions", pos |-> 0,
                    n \in {-1, 0, 2}, d1 \in {-2147483647 - 1, -1, 0, 1, 2, 65536, 2147483647}, d2 \in {-1, 0, 1, 2, 65536, 2147483647}}
                \cup {[ty |-> "Variant", what |-> "dimension-count", pos |-> 0, s |-> <<U8(6 + 128 + 64), I32(0), I32(nd)>>] : nd \in HostileLens}
                \cup {[ty |-> "Variant", what |-> "dimensions", pos |-> 0, s |-> <<U8(6 + 128 + 64), I32(0), I32(3), I32(65536), I32(65536), I32(d3)>>] : d3 \in {1, 65536}}
-InitHostile == \/ \E x \in Hostile \cup HostileDims : c = [kind |-> "hostile", ty |-> x.ty, what |-> x.what, pos |-> x.pos, s |-> x.s, dec |-> Dec(x.ty, x.s)]
+\* Dimension vectors of length 3 and 4 whose exact product is far above every legal array length but
+\* congruent to it in machine arithmetic.  TLC integers are 32 bit, so the vector is not written out here:
+\* a token [k |-> "dimvec3" / "dimvec4", n |-> array length, a |-> class] stands for the dimension count
+\* followed by positive Int32 dimensions d1..dk, which the generator computes from the class:
+\*    wrap64    d1 * ... * dk = length + j * 2^64 for some j >= 1   (length -1, the null array: = j * 2^64 - 1)
+\*    wrap32    d1 * ... * dk = length + j * 2^32 for some j >= 1, below 2^63   (Int32 wrap-around)
+\*    hugefirst / hugelast    one dimension 2^31 - 1, all others 1
+\* In every class the true product differs from the array length, so the contract decoder refuses the
+\* stream (in unbounded arithmetic, as DecVariant's Prod does) before anything is allocated.
+DimClasses == {"wrap64", "wrap64asc", "wrap32", "wrap32asc", "hugefirst", "hugelast"}     \* asc: smallest dimension first
+WrapDims == {[ty |-> "Variant", what |-> "dimensions-wrap", pos |-> 0,
+              s |-> <<U8(6 + 128 + 64), I32(n)>> \o [i \in 1..n |-> T("i32", 0, "-1")] \o <<T(k, n, cls)>>] :
+                 n \in {-1, 0, 2, 4}, k \in {"dimvec3", "dimvec4"}, cls \in DimClasses}
+DecWrap(x) == Fail
+InitHostile == \/ \E x \in WrapDims : c = [kind |-> "hostile", ty |-> x.ty, what |-> x.what, pos |-> x.pos, s |-> x.s, dec |-> DecWrap(x)]
+               \/ \E x \in Hostile \cup HostileDims : c = [kind |-> "hostile", ty |-> x.ty, what |-> x.what, pos |-> x.pos, s |-> x.s, dec |-> Dec(x.ty, x.s)]
                \/ \E x \in Nested : c = [kind |-> "hostile", ty |-> x.ty, what |-> x.what, pos |-> x.pos, s |-> x.s, dec |-> DecNested(x)]
 
 \* allocation bound of the contract decoder: storage reserved never exceeds 16 bytes per input byte
